@@ -78,6 +78,9 @@ def permutation(draw, n):
 #  relative difference is far below any floating-point comparison tolerance)
 INT_POOL = [3, -2, 10, 0, 7, 21, 5, 100, -11, 4, 9, 12, 20240105, 20240112,
             9007199254740993, 9007199254740994]      # 64-bit ids / ns time stamps: distinct only as integers
+# float-valued labels: subject / session ids loaded as doubles, time stamps, fractions, tiny steps
+FLOAT_POOL = [2301001.0, 2301002.0, 0.5, 2.5, -1.25, 250001.0, 250002.0, 1e-9, 2e-9, 100.0, 7.0,
+              2301003.0]
 STR_POOL = ['b10', 'a', 'b9', 'c', 'B', 'zz', 'a1', 'cond', 'x', 'b', 'aa', 'd']
 UNI_POOL = ['bär', 'a', 'ß2', 'c', 'Ünï', 'zz', 'π', 'cond', 'x', 'b', 'aa', 'd']
 
@@ -87,13 +90,14 @@ def label_set(draw, n, kinds=('int', 'str')):
     """n distinct labels in a generated order (appearance order != sorted order mostly).
     returns (kind, labels)"""
     kind = draw(st.sampled_from(list(kinds)))
-    pool = {'int': INT_POOL, 'str': STR_POOL, 'uni': UNI_POOL}[kind]
+    pool = {'int': INT_POOL, 'str': STR_POOL, 'uni': UNI_POOL, 'float': FLOAT_POOL}[kind]
     if n <= len(pool):
         idx = draw(st.lists(st.integers(0, len(pool) - 1), min_size=n, max_size=n, unique=True))
         labs = [pool[i] for i in idx]
     else:
         perm = draw(permutation(n))
-        labs = [(i * 3 - 7) for i in perm] if kind == 'int' else ['s%03d' % i for i in perm]
+        labs = [(i * 3 - 7) for i in perm] if kind == 'int' else \
+            [2301000.0 + i for i in perm] if kind == 'float' else ['s%03d' % i for i in perm]
     return kind, labs
 
 
